@@ -21,7 +21,7 @@ func c07Features(cs *cvxCase, clause string) map[string]any {
 		case "path":
 			f["rewrite"] = cvxRewriteClass(r, cs.C.Path)
 			f["escapes"] = cvxEscapeClass(cs.C.Path)
-			if c07OptionNeedsEscape(r.Strip) || c07OptionNeedsEscape(r.Prepend) {
+			if cvxOptionNeedsEscape(r.Strip) || cvxOptionNeedsEscape(r.Prepend) {
 				f["option_needs_escape"] = true
 			}
 		case "status":
@@ -67,15 +67,6 @@ func c07WantURI(cs *cvxCase) string {
 		uri += "?" + cvxQuery(cs.Up.Query)
 	}
 	return uri
-}
-
-func c07OptionNeedsEscape(toks []string) bool {
-	for _, t := range toks {
-		if t == "U+F6" || t == "^" {
-			return true
-		}
-	}
-	return false
 }
 
 // c07SamePathModOptionHex: the escapes fabio itself writes for the text of the prepend option may use
